@@ -135,7 +135,7 @@ pub fn get_entity_query(
     let exists = get_exists_query(entity, prepared_query, &entity.sql_aliased_name(), t);
     q.push_str(&exists);
 
-    let end = get_end_select_query(entity, prepared_query, t);
+    let end = get_end_select_query(entity, prepared_query, &entity.sql_aliased_name(), t);
     q.push_str(&end);
 
     q.push('\n');
@@ -290,7 +290,7 @@ pub fn get_sub_entity_query(
     let exists = get_exists_query(entity, prepared_query, field_name, t);
     q.push_str(&exists);
 
-    let end = get_end_select_query(entity, prepared_query, t);
+    let end = get_end_select_query(entity, prepared_query, field_name, t);
     q.push_str(&end);
 
     q.push('\n');
@@ -362,7 +362,7 @@ pub fn get_sub_system_entity_query(
     let exists = get_exists_query(entity, prepared_query, field_name, t);
     q.push_str(&exists);
 
-    let end = get_end_select_query(entity, prepared_query, t);
+    let end = get_end_select_query(entity, prepared_query, field_name, t);
     q.push_str(&end);
 
     q.push('\n');
@@ -379,6 +379,7 @@ pub fn get_sub_system_entity_query(
 pub fn get_end_select_query(
     entity: &EntityQuery,
     prepared_query: &mut SingleQuery,
+    node_table: &str,
     t: usize,
 ) -> String {
     let mut q = String::new();
@@ -386,7 +387,7 @@ pub fn get_end_select_query(
     let search = get_search_filter(&entity.params, prepared_query, t);
     q.push_str(&search);
 
-    let filters = get_where_filters(&entity.params, prepared_query, t);
+    let filters = get_where_filters(&entity.params, prepared_query, node_table, t);
     q.push_str(&filters);
 
     if entity.is_aggregate {
@@ -416,13 +417,13 @@ pub fn get_end_select_query(
         q.push_str(" AND \n");
         tab(&mut q, t);
     }
-    let paging = get_paging(&entity.params, prepared_query);
+    let paging = get_paging(&entity.params, prepared_query, node_table);
     q.push_str(&paging);
 
     if !entity.params.order_by.is_empty() || entity.params.fulltext_search.is_some() {
         q.push('\n');
         tab(&mut q, t);
-        let order_by = get_order(&entity.params, prepared_query);
+        let order_by = get_order(&entity.params, prepared_query, node_table);
         q.push_str(&order_by);
     }
     q
@@ -619,7 +620,7 @@ fn get_fields(
                 let func = match &funx {
                     Function::Avg(f) => {
                         let agg_field = if field.field.is_system {
-                            field.field.name.clone()
+                            format!("{}.{}", parent_table, field.field.name)
                         } else {
                             let _ = f;
                             js_value_or_default(&field.field, prepared_query)
@@ -629,7 +630,7 @@ fn get_fields(
                     Function::Count => format!("'{}',count(1) ", &field.name()),
                     Function::Max(f) => {
                         let agg_field = if field.field.is_system {
-                            field.field.name.clone()
+                            format!("{}.{}", parent_table, field.field.name)
                         } else {
                             let _ = f;
                             js_value_or_default(&field.field, prepared_query)
@@ -638,7 +639,7 @@ fn get_fields(
                     }
                     Function::Min(f) => {
                         let agg_field = if field.field.is_system {
-                            field.field.name.clone()
+                            format!("{}.{}", parent_table, field.field.name)
                         } else {
                             let _ = f;
                             js_value_or_default(&field.field, prepared_query)
@@ -647,7 +648,7 @@ fn get_fields(
                     }
                     Function::Sum(f) => {
                         let agg_field = if field.field.is_system {
-                            field.field.name.clone()
+                            format!("{}.{}", parent_table, field.field.name)
                         } else {
                             let _ = f;
                             js_value_or_default(&field.field, prepared_query)
@@ -667,7 +668,13 @@ fn get_fields(
     q
 }
 
-fn get_where_filters(params: &EntityParams, prepared_query: &mut SingleQuery, t: usize) -> String {
+//system fields are qualified with the alias of the node table: a nested entity is joined with _edge, which has columns of the same name
+fn get_where_filters(
+    params: &EntityParams,
+    prepared_query: &mut SingleQuery,
+    node_table: &str,
+    t: usize,
+) -> String {
     let mut q = String::new();
 
     if !params.filters.is_empty() {
@@ -698,7 +705,10 @@ fn get_where_filters(params: &EntityParams, prepared_query: &mut SingleQuery, t:
             };
 
             if filter.field.is_system {
-                q.push_str(&format!("{} {} {}", &filter.name, operation, &value));
+                q.push_str(&format!(
+                    "{}.{} {} {}",
+                    node_table, &filter.name, operation, &value
+                ));
             } else {
                 match filter.field.field_type {
                     FieldType::Array(_) => {
@@ -910,7 +920,11 @@ fn get_having_filters(params: &EntityParams, prepared_query: &mut SingleQuery, t
     q
 }
 
-pub fn get_order(params: &EntityParams, prepared_query: &mut SingleQuery) -> String {
+pub fn get_order(
+    params: &EntityParams,
+    prepared_query: &mut SingleQuery,
+    node_table: &str,
+) -> String {
     let mut query = String::new();
     if params.fulltext_search.is_some() {
         query.push_str("ORDER BY rank");
@@ -926,7 +940,7 @@ pub fn get_order(params: &EntityParams, prepared_query: &mut SingleQuery) -> Str
             if ord.is_selected {
                 query.push_str(&format!("value->>'$.{}' {} ", &ord.name, direction));
             } else if ord.field.is_system {
-                query.push_str(&format!("{} {} ", &ord.name, direction));
+                query.push_str(&format!("{}.{} {} ", node_table, &ord.name, direction));
             } else {
                 query.push_str(&format!(
                     "{} {} ",
@@ -994,7 +1008,11 @@ fn paging_string(
     }
 }
 
-pub fn get_paging(params: &EntityParams, prepared_query: &mut SingleQuery) -> String {
+pub fn get_paging(
+    params: &EntityParams,
+    prepared_query: &mut SingleQuery,
+    node_table: &str,
+) -> String {
     let mut q = String::new();
 
     let mut before = true;
@@ -1033,7 +1051,7 @@ pub fn get_paging(params: &EntityParams, prepared_query: &mut SingleQuery) -> St
             if ord.is_selected {
                 q.push_str(&format!("value->>'$.{}' = {}", &ord.name, value));
             } else if ord.field.is_system {
-                q.push_str(&format!("{} = {}", &ord.name, value));
+                q.push_str(&format!("{}.{} = {}", node_table, &ord.name, value));
             } else {
                 q.push_str(&format!(
                     "{} = {}",
@@ -1085,7 +1103,7 @@ pub fn get_paging(params: &EntityParams, prepared_query: &mut SingleQuery) -> St
         if ord.is_selected {
             q.push_str(&format!("value->>'$.{}' {} {}", &ord.name, ope, value));
         } else if ord.field.is_system {
-            q.push_str(&format!("{} {} {}", &ord.name, ope, value));
+            q.push_str(&format!("{}.{} {} {}", node_table, &ord.name, ope, value));
         } else {
             q.push_str(&format!(
                 "{} {} {}",
